@@ -233,6 +233,7 @@ func (c *fixedChunkReader) Read(p []byte) (int, error) {
 }
 
 func runC06(r *core.Run) {
+	racePass(r, "race-formats", "all five codecs: readers each on their own stream (whole and in 7-byte reads, every corpus file), Write on shared records into separate destinations, File on one shared path; every result is compared with what the same call returned when it ran alone")
 	L := core.Pick(r, 5, 7)
 	r.Bound("all-schedules", fmt.Sprintf("every input over each format's token alphabet of length 0..%d plus the 12+ well-formed small corpus files in their LF and CRLF forms (up to 18 bytes) plus 20 inputs per format that begin, or whose first field begins, with a magic number (byte order marks whole and cut, gzip, zstd, bzip2, NUL, shebang) x EVERY partition of the stream into successive Read results x {EOF alone, EOF together with the last bytes}", L))
 	r.Assume("the controlled reader never returns (0, nil); error texts are not compared, only positions")
@@ -754,5 +755,90 @@ func runC06(r *core.Run) {
 				return core.Failf("%s.File(%s) yields %s but Reader on the same %d bytes yields %s", c.Format, name, trunc(renderObs(got), 300), len(data), trunc(renderObs(want), 300))
 			}
 			return core.Outcome{Class: fmt.Sprint(c.What, " gz=", c.Gz, " items=", min(len(got), 2)), Nontrivial: true, Evals: 2}
+		})
+
+	// One File(path) value is an iter.Seq2 like any other: it may be ranged over again (a second pass
+	// over the data, a retry after an early stop), and every walk is a walk over that file's bytes.
+	type c06Walks struct {
+		Format string `json:"format"`
+		What   string `json:"content"`
+		Gz     bool   `json:"gz"`
+		First  int    `json:"first_walk_stops_after"` // 0: the first walk runs to the end
+	}
+	core.Clause(r, "file-iterator-walked-again", core.Opts{Rule: "ONE value returned by File(path) (SAM: File and FileHeader) walked three times - the first walk complete or stopped after 1 or 2 items, the second complete, the third complete after a second File(path) value for the same path was walked in between: every complete walk yields what Reader yields on the file's bytes, a stopped walk its leading items; plain and .gz; contents: one record, many records, a decode ending in an error item, the 9 KiB file, a missing path; non-trivial = all"},
+		func(emit func(c06Walks) bool) {
+			for _, f := range formats {
+				for _, what := range []string{"one", "many", "error", "large", "missing"} {
+					for _, gz := range []bool{false, true} {
+						for first := 0; first <= 2; first++ {
+							if !emit(c06Walks{f.Name, what, gz, first}) {
+								return
+							}
+						}
+					}
+				}
+			}
+		},
+		func(c c06Walks) core.Outcome {
+			f := formatByName(c.Format)
+			name := fmt.Sprintf("walks-%s-%s-%d.txt", c.Format, c.What, c.First)
+			if c.Gz {
+				name += ".gz"
+			}
+			path := filepath.Join(scratch, name)
+			var want []obsItem
+			if c.What != "missing" {
+				data := fileContent(c.Format, c.What)
+				disk := data
+				if c.Gz {
+					var zb bytes.Buffer
+					zw := gzip.NewWriter(&zb)
+					zw.Write(data)
+					zw.Close()
+					disk = zb.Bytes()
+				}
+				if err := os.WriteFile(path, disk, 0o644); err != nil {
+					return core.Outcome{Class: "HARNESS cannot write scratch file", Skip: true}
+				}
+				defer os.Remove(path)
+				var wp string
+				if want, wp = refRead(f, data); wp != "" {
+					return core.Failf("%s: Reader panicked: %s", c.Format, wp)
+				}
+			}
+			walk, other := fileWalker(c.Format, path), fileWalker(c.Format, path)
+			check := func(n int, got []obsItem, p string, stopped int) string {
+				if p != "" {
+					return fmt.Sprintf("walk %d panicked: %s", n, p)
+				}
+				if c.What == "missing" {
+					if len(got) != 1 || !got[0].IsErr() {
+						return fmt.Sprintf("walk %d over a missing path yields %s, want exactly one error item", n, trunc(renderObs(got), 200))
+					}
+					return ""
+				}
+				w := want
+				if stopped > 0 && stopped < len(w) {
+					w = w[:stopped]
+				}
+				if !sameShape(got, w) {
+					return fmt.Sprintf("walk %d (stopped after %d; 0 = complete) yields %s but Reader on the file's bytes yields %s", n, stopped, trunc(renderObs(got), 300), trunc(renderObs(w), 300))
+				}
+				return ""
+			}
+			horizon := 1 << 20
+			if c.First > 0 {
+				horizon = c.First
+			}
+			g1, p1, _ := walk(horizon)
+			g2, p2, _ := walk(1 << 20)
+			o1, op, _ := other(1 << 20)
+			g3, p3, _ := walk(1 << 20)
+			for i, e := range []string{check(1, g1, p1, c.First), check(2, g2, p2, 0), check(0, o1, op, 0), check(3, g3, p3, 0)} {
+				if e != "" {
+					return core.Failf("%s.File(%s), one iterator value walked repeatedly (step %d): %s", c.Format, name, i+1, e)
+				}
+			}
+			return core.Outcome{Class: fmt.Sprint(c.What, " gz=", c.Gz, " first=", c.First), Nontrivial: true, Evals: 5}
 		})
 }
